@@ -56,7 +56,7 @@ def gen_ff(rnd):
                  'resid': 1, 'resname': name, 'cg': i + 1}
             r = rnd.random()
             if r < 0.7:
-                a['charge'] = rnd.choice([0.0, 1.0, -1.0, 0.5])
+                a['charge'] = rnd.choice([0.0, 1.0, -1.0, 0.5, 0.3333333, -0.16667, 4e-05])
                 if r < 0.3:
                     a['mass'] = rnd.choice([72.0, 36.0])
             if rnd.random() < 0.15:
